@@ -110,32 +110,27 @@ Qed.
 
 Definition rows_in (txs : list Z) (vt : vtable) : Prop := forall r, In r vt -> In (vtx r) txs.
 
+Lemma write_row_rows known vt k T kind dat fl validity txs :
+  In T txs -> rows_in txs vt -> rows_in txs (write_row known vt k T kind dat fl validity).
+Proof.
+  intros HT H. unfold write_row.
+  assert (H1 : rows_in txs
+     (if known
+      then map (fun r => if is_row k T r then mkv k T (vend r) kind dat (orb_list (vmod r) fl) else r) vt
+      else vt ++ [mkv k T None kind dat fl])).
+  { destruct known.
+    - intros r Hr. apply in_map_iff in Hr as [r0 [E Hr0]].
+      destruct (is_row k T r0); subst r; [exact HT | apply H; exact Hr0].
+    - intros r Hr. apply in_app_or in Hr as [Hr|[<-|[]]]; [apply H; exact Hr | exact HT]. }
+  destruct validity; [|exact H1].
+  intros r Hr. apply close_pred_tx in Hr as [r0 [Hr0 [E _]]]. rewrite E. apply H1; exact Hr0.
+Qed.
+
 Lemma process_op_rows g T txs acc o :
   In T txs -> rows_in txs (fst (fst acc)) -> rows_in txs (fst (fst (process_op g T acc o))).
 Proof.
   intros HT H. destruct acc as [[vt vobjs] err]. simpl in H. unfold process_op.
-  destruct (op_proc o); [exact H|].
-  set (cc := cls_of g (op_cls o)). set (k := k_tab cc :: op_key o).
-  set (known := existsb _ vobjs).
-  match goal with |- rows_in _ (fst (fst (?vt2, _, _))) => assert (Hvt : rows_in txs vt2) end.
-  { assert (H1 : rows_in txs
-       (if known
-        then map (fun r => if is_row k T r
-              then mkv k T (vend r) (op_kind o)
-                   (if g_null_delete g && (op_kind o =? OP_DEL)
-                    then map (fun _ => None) (dat_of cc (op_vals o)) else dat_of cc (op_vals o))
-                   (orb_list (vmod r) (flags_now g cc o)) else r) vt
-        else vt ++ [mkv k T None (op_kind o)
-                   (if g_null_delete g && (op_kind o =? OP_DEL)
-                    then map (fun _ => None) (dat_of cc (op_vals o)) else dat_of cc (op_vals o))
-                   (flags_now g cc o)])).
-    { destruct known.
-      - intros r Hr. apply in_map_iff in Hr as [r0 [E Hr0]].
-        destruct (is_row k T r0); subst r; [exact HT | apply H; exact Hr0].
-      - intros r Hr. apply in_app_or in Hr as [Hr|[<-|[]]]; [apply H; exact Hr | exact HT]. }
-    destruct (k_validity cc); [|exact H1].
-    intros r Hr. apply close_pred_tx in Hr as [r0 [Hr0 [E _]]]. rewrite E. apply H1; exact Hr0. }
-  exact Hvt.
+  destruct (op_proc o); [exact H|]. simpl. apply write_row_rows; assumption.
 Qed.
 
 Lemma fold_process_rows g T txs ops acc :
@@ -329,36 +324,31 @@ Proof.
   destruct (same_key k r && sql_eq (Some (vtx r)) (max_below t k T)); reflexivity.
 Qed.
 
+Lemma write_row_ids known vt k T kind dat fl validity :
+  vids (write_row known vt k T kind dat fl validity) =
+  if known then vids vt else vids vt ++ [(k, T)].
+Proof.
+  unfold write_row.
+  assert (H1 : vids (if known
+      then map (fun r => if is_row k T r then mkv k T (vend r) kind dat (orb_list (vmod r) fl) else r) vt
+      else vt ++ [mkv k T None kind dat fl]) = if known then vids vt else vids vt ++ [(k, T)]).
+  { destruct known.
+    - unfold vids. rewrite map_map. apply map_ext. intro r.
+      destruct (is_row k T r) eqn:Er; [|reflexivity].
+      unfold is_row in Er. apply andb_true_iff in Er as [E1 E2].
+      apply same_key_eq in E1. apply Z.eqb_eq in E2. unfold vid. simpl. congruence.
+    - unfold vids. rewrite map_app. reflexivity. }
+  destruct validity; [rewrite close_pred_ids|]; exact H1.
+Qed.
+
 Lemma process_op_new_rows g T acc o :
   forall i, In i (vids (fst (fst (process_op g T acc o)))) ->
             In i (vids (fst (fst acc))) \/ snd i = T.
 Proof.
   destruct acc as [[vt vobjs] err]. unfold process_op. simpl.
-  destruct (op_proc o); [auto|].
-  set (cc := cls_of g (op_cls o)). set (k := k_tab cc :: op_key o). set (known := existsb _ vobjs).
-  intros i Hi.
-  assert (H1 : In i (vids
-       (if known
-        then map (fun r => if is_row k T r
-              then mkv k T (vend r) (op_kind o)
-                   (if g_null_delete g && (op_kind o =? OP_DEL)
-                    then map (fun _ => None) (dat_of cc (op_vals o)) else dat_of cc (op_vals o))
-                   (orb_list (vmod r) (flags_now g cc o)) else r) vt
-        else vt ++ [mkv k T None (op_kind o)
-                   (if g_null_delete g && (op_kind o =? OP_DEL)
-                    then map (fun _ => None) (dat_of cc (op_vals o)) else dat_of cc (op_vals o))
-                   (flags_now g cc o)]))).
-  { destruct (k_validity cc); simpl in Hi; [rewrite close_pred_ids in Hi|]; exact Hi. }
-  clear Hi. destruct known.
-  - unfold vids in H1. rewrite map_map in H1. apply in_map_iff in H1 as [r [E Hr]].
-    destruct (is_row k T r) eqn:Er.
-    + unfold is_row in Er. apply andb_true_iff in Er as [E1 E2].
-      apply same_key_eq in E1. apply Z.eqb_eq in E2.
-      left. unfold vids. apply in_map_iff. exists r. split; [|exact Hr].
-      rewrite <- E. unfold vid. simpl. congruence.
-    + left. unfold vids. apply in_map_iff. exists r. auto.
-  - unfold vids in H1. rewrite map_app in H1. apply in_app_or in H1 as [H1|[<-|[]]]; [left; exact H1|].
-    right. reflexivity.
+  destruct (op_proc o); [auto|]. simpl. intros i Hi. rewrite write_row_ids in Hi.
+  destruct (existsb _ vobjs); [auto|].
+  apply in_app_or in Hi as [Hi|[<-|[]]]; auto.
 Qed.
 
 Lemma fold_process_new_rows g T ops : forall acc i,
